@@ -117,38 +117,197 @@ def spec_monitor(net, kind, events):
     return None
 
 
+def gen_net_rdv(rng):
+    """Networks biased towards rendezvous hazards.  A global sequence of messages is drawn first and every fiber's body is
+    its projection, so the network has a run without deadlock; mostly synchronous channels, a long main body, children that
+    complete early (their completion wakes a parked parent through the parent bias), launches in the middle of bodies."""
+    nch = rng.randint(2, 3)
+    caps = [None if rng.random() < 0.75 else 1 for _ in range(nch)]
+    nt = rng.randint(3, 6)
+    parent = [None] + [0 if rng.random() < 0.8 else rng.randrange(0, t) for t in range(1, nt)]
+    idle = [False] + [rng.random() < 0.3 for _ in range(1, nt)]
+    live = [t for t in range(nt) if not idle[t]]
+    if len(live) < 2:
+        idle[1] = False
+        live = [0, 1] if nt > 1 else [0]
+    bodies = [[] for _ in range(nt)]
+    first_at = {}           # template -> number of ops its parent has when the template is first needed
+    v = 0
+    for _ in range(rng.randint(3, 12)):
+        g = rng.randrange(nch)
+        s, r = rng.choice(live), rng.choice(live)
+        if rng.random() < 0.5:
+            if rng.random() < 0.5:
+                r = 0
+            else:
+                s = 0
+        if s == r:
+            continue
+        for t in (s, r):
+            u = t
+            while u != 0 and u not in first_at:
+                first_at[u] = len(bodies[parent[u]])
+                u = parent[u]
+        v += 1
+        bodies[s].append(["s", g, v])
+        bodies[r].append(["r", g])
+    for t in range(1, nt):
+        if idle[t] and rng.random() < 0.5:
+            bodies[t] = [["p", 90 + rng.randrange(9)]]
+    # launches: not later than the point where the child is first needed (children needed by nobody: anywhere)
+    ins = {}
+    for t in range(1, nt):
+        p = parent[t]
+        hi = first_at.get(t, len(bodies[p]))
+        ins.setdefault(p, []).append((rng.randint(0, hi), t))
+    for p, lst in ins.items():
+        for pos, t in sorted(lst, reverse=True):
+            bodies[p].insert(pos, ["L", t, list(range(nch))])
+    bodies[0].append(["p", 99])
+    net = {"caps": caps, "bodies": bodies, "arity": [nch] * nt, "mode": "args"}
+    assert c08.well_formed(net), net
+    return net
+
+
+def _premature(mstats):
+    """does the exact scheduler model's run contain the ghost event `premature-ack` (a fiber parked after a synchronous
+    deposit is activated while the value is still queued: finding D26)?  The model's signature names one finding only
+    (a host panic later in the same run takes precedence), the statistics field counts the event itself."""
+    kv = dict(x.split("=") for x in mstats.split() if "=" in x)
+    return int(kv.get("premature", 0)) > 0
+
+
+def rendezvous_monitor(net, kind, events):
+    """"A synchronous sender does not proceed until its value has been taken", judged on the program output alone:
+    every event a fiber prints after a send on a synchronous channel (its later receives and prints; for the main
+    fiber also the final `print 99` / a normal exit) must come after the `got` line of that value, and a value the
+    same fiber sends later must not be received before it.  A receiver prints `got` straight after the receive,
+    before any other fiber can run.  Only judged where the labels are unambiguous: every template launched once, the
+    send's parameter denotes synchronous channels only, and nobody closes them (a close releases parked senders by
+    design).  Returns None or a message."""
+    envs = channel_map(net)
+    nb = len(net["bodies"])
+    count = {}
+    for body in net["bodies"]:
+        for o in body:
+            if o[0] == "L" and o[1] < nb:
+                count[o[1]] = count.get(o[1], 0) + 1
+    if any(c > 1 for c in count.values()):
+        return None
+    closes = set()
+    for t, body in enumerate(net["bodies"]):
+        for o in body:
+            if o[0] == "c" and t in envs and o[1] < len(envs[t]):
+                closes |= envs[t][o[1]]
+    sync = set(i for i, c in enumerate(net["caps"]) if c is None)
+    evs = events.split() if events != "-" else []
+    got_at = {}
+    for idx, ev in enumerate(evs):
+        if ev.startswith("g") and not ev.endswith(":nil"):
+            try:
+                got_at.setdefault(int(ev.split(":")[1]), idx)
+            except ValueError:
+                return None
+    # walk each template's body alongside its own events
+    for t, body in enumerate(net["bodies"]):
+        if t not in envs:
+            continue
+        mine = [(idx, ev) for idx, ev in enumerate(evs) if ev[0] in "gp" and ev[1:].split(":")[0] == str(t)]
+        k = 0
+        owed = []       # synchronous values this fiber has sent so far (must be taken before it is seen again)
+        for o in body:
+            if o[0] == "s":
+                chans = envs[t][o[1]] if o[1] < len(envs[t]) else set()
+                # a later value of this fiber that was received proves the fiber got past the earlier sends
+                if o[2] in got_at:
+                    for v in owed:
+                        if v not in got_at or got_at[v] > got_at[o[2]]:
+                            return ("f%d's later value %d was received although its synchronous send of %d had not been taken "
+                                    "(the sender proceeded early)" % (t, o[2], v))
+                if chans and chans <= sync and not (chans & closes):
+                    owed.append(o[2])
+            elif o[0] in ("r", "p"):
+                if k >= len(mine):
+                    break
+                idx, ev = mine[k]
+                k += 1
+                for v in owed:
+                    if v not in got_at or got_at[v] > idx:
+                        return ("f%d printed `%s` after its synchronous send of %d, which %s (the sender proceeded before its value was taken)"
+                                % (t, ev, v, "nobody had received yet" if v in got_at else "was never received"))
+    return None
+
+
 def stream_sched(ctx, n, label="sched_fifo"):
     """Run `n` generated networks on the implementation and judge the output with `spec_monitor`.
     Returns True iff no failure; on failure calls ctx.violation with the shrunk network."""
     rng = random.Random(ctx.seed * 7907 + 23)
-    nets = [c08.gen_net(rng) for _ in range(n)]
+    # the C08 generator plus twice as many from the rendezvous-biased generator (corpus first)
+    nets = [c08.gen_net(rng) for _ in range(n)] + [gen_net_rdv(rng) for _ in range(2 * n)]
+    cdir = common.os.path.join(common.VERIF, "corpus", "C07_sched")
+    if common.os.path.isdir(cdir):
+        pre = []
+        for f in sorted(common.os.listdir(cdir)):
+            if f.endswith(".json"):
+                c = common.json.load(open(common.os.path.join(cdir, f)))
+                pre.append(c08.parse_net_text(c["net"], c.get("mode", "args")))
+        nets = pre + nets
     work = c08.Work()
     try:
         impl = c08.run_impl(nets, work)
         bad = None
         recvd = 0
-        for net, (kind, events) in zip(nets, impl):
+        rdv_judged = rdv_known = 0
+        model = None
+        for k_, (net, (kind, events)) in enumerate(zip(nets, impl)):
             recvd += sum(1 for e in events.split() if e.startswith("g") and not e.endswith(":nil"))
             msg = spec_monitor(net, kind, events)
+            if msg is None:
+                rmsg = rendezvous_monitor(net, kind, events)
+                rdv_judged += 1
+                if rmsg:
+                    # the unchanged code breaks this clause in one recorded way (D26-stale-wakeup, properties C07+C08): the exact
+                    # scheduler model reproduces it and marks the network with the D26 signature
+                    if model is None:
+                        model = c08.run_model(nets)
+                    mk, me, _, _, sig, mstats = model[k_]
+                    if _premature(mstats) and (mk, me) == (kind, events):
+                        rdv_known += 1
+                    else:
+                        msg = rmsg
             if kind.endswith("+garbage"):
                 msg = msg or "unexpected output lines"
             ctx.count_case("fifo:" + c08.net_text(net), events.count("g") >= 2)
             if msg and bad is None:
                 bad = (net, kind, events, msg)
-        ctx.stream_stat(label, networks=len(nets), values_received=recvd)
+        ctx.stream_stat(label, networks=len(nets), values_received=recvd, rendezvous_judged=rdv_judged, rendezvous_known_D26=rdv_known)
+        if rdv_known:
+            ctx.known("D26-stale-wakeup-sync-sender-proceeds", "%d generated network(s) on which a synchronous sender proceeds before its value is taken, "
+                      "each reproduced exactly by the scheduler model under its D26 signature (stale receive-waiter entry); owner C08" % rdv_known)
         ctx.cov["traces_validated_against_impl"] += len(nets)
         if bad is None:
             return True
         net, kind, events, msg = bad
 
-        def fails(cand):
+        def verdict(cand):
             k, e = c08.run_impl([cand], work)[0]
-            return spec_monitor(cand, k, e) is not None
+            m1 = spec_monitor(cand, k, e)
+            if m1:
+                return m1
+            m2 = rendezvous_monitor(cand, k, e)
+            if m2:
+                mk, me, _, _, sig, mstats = c08.run_model([cand])[0]
+                if _premature(mstats) and (mk, me) == (k, e):
+                    return None
+            return m2
+
+        def fails(cand):
+            return verdict(cand) is not None
         small = c08.shrink(net, fails)
         k, e = c08.run_impl([small], work)[0]
         ctx.cov["impl_vs_spec_failures"] += 1
         ctx.violation("sched_fifo", {"engine": "sched", "kind": "implementation-vs-spec", "seed": ctx.seed,
-                                     "what": spec_monitor(small, k, e) or msg, "net": c08.net_text(small), "mode": small["mode"],
+                                     "what": verdict(small) or msg, "net": c08.net_text(small), "mode": small["mode"],
                                      "program": c08.render(small), "impl": {"outcome": k, "events": e},
                                      "replay": "./check C08 --replay <this file>"})
         return False
